@@ -252,6 +252,12 @@ class Component( ComponentLevel7 ):
     for func, obj_name in provided_func_calls:
       parent._dsl.func_calls[func].add( eval(obj_name) )
 
+    # The connections and update block metadata provided by the parent may
+    # have created new slices of the added component's signals
+    added_signals, = obj._collect_all( [ lambda x: isinstance( x, Signal ) ] )
+    top._dsl.all_signals       |= added_signals
+    top._dsl.all_named_objects |= added_signals
+
     del NamedObject._elaborate_stack
 
   def _delete_component( top, obj ):
